@@ -178,7 +178,7 @@ def crash_key_ex(crash, label):
         return "hang:" + label, True, []
     if crash.kind == "asan":
         m = re.search(r"ERROR: AddressSanitizer: (\S+)", text)
-        kind = m.group(1) if m else "unknown"
+        kind = m.group(1).rstrip(":") if m else "unknown"
         if kind == "unknown-crash":
             # multi-byte access that starts inside and ends outside a block
             loc = re.search(r"is located \d+ bytes (?:to the right of|after|inside of|to the left of|before) \d+-byte region", text)
@@ -344,6 +344,12 @@ def run_chunk(part, builds, cases, widx):
         short = part["_hangs"] >= HANGS_BEFORE_SHORT_ALARM
         res = run_cases(exe, payloads, alarm_ms=100 if short else None)
         for (label, kind, f), payload, r in zip(cases, payloads, res):
+            if isinstance(r, Crash) and r.kind == "asan" and "SEGV on unknown address" in (r.report or ""):
+                # whether an over-read lands in a red zone or in an unmapped page depends on the heap
+                # layout of the long-lived --fork process; judge the case in a fresh process (as replay does)
+                r2 = common.run_cases(exe, [payload], env_extra=ENV_PLAIN)[0]
+                if isinstance(r2, Crash) and r2.kind in ("asan", "ubsan"):
+                    r = r2
             if isinstance(r, Crash) and r.kind == "hang":
                 part["_hangs"] += 1
                 if short and ("hang:" + label) not in part["_hang_confirmed"]:
@@ -536,7 +542,7 @@ def run(tier):
         "mpeg2_ts_pkt_get_next is called with off <= buf_size and one of the four TS packet sizes",
         "ASan red zones do not see intra-object or far out-of-bounds accesses; span checks cover returned values only",
     ]
-    specs = [(v, build_spec(v)) for v in (VARIANTS if tier == "thorough" else VARIANTS)]
+    specs = [(v, build_spec(v)) for v in VARIANTS]
     exes = common.try_builds(report, specs)
     if not exes:
         raise common.Inconclusive("no driver variant builds: %s" % report.builds)
